@@ -20,8 +20,9 @@ known_findings.d/C17.json) never masks another clause in the same step; its buck
 
 Degenerate single-point axes that include their endpoint (gpts == 1 with endpoint=True) are
 not generated: no sampling satisfies extent == 0 * sampling for a positive extent.
-Re-assignments of a *nearly* equal extent under lock_extent (abTEM compares with
-np.allclose) are not generated: values are either identical or differ by > 1e-3 relative.
+Re-assignments of a *nearly* equal extent under lock_extent (abTEM compares with np.allclose and
+then stores the new value, e.g. 1.9999999999999998 -> 2.0) are skipped: an assigned extent is
+either identical to the locked one or differs by > 1e-3 relative.
 """
 
 from __future__ import annotations
@@ -323,6 +324,15 @@ def _run_history(case, ctx):
             value = _arg(op["value"])
             rule = kind
 
+        if field == "extent" and kind != "bad_length" and "extent" in locks and before["extent"] is not None:
+            cur, new = before["extent"], tuple(float(x) for x in _expand(value, dims))
+            if new != cur and all(abs(a - b) <= 1e-3 * abs(b) for a, b in zip(new, cur)):
+                # lock_extent accepts re-assignments that are np.allclose to the current extent (so
+                # that match() can re-assign float32-rounded extents) and stores the new value;
+                # such nearly-equal values are outside this check (see module docstring)
+                ctx.label("near_equal_locked_extent_skipped")
+                continue
+
         raised = None
         try:
             setattr(g, field, value)
@@ -384,7 +394,7 @@ _RULE = "the history has >= 3 successful assignments touching >= 2 different qua
     "history",
     history,
     quick=4000,
-    thorough=100000,
+    thorough=40000,
     tol="f64 rtol=1e-12; locked quantities and assigned extent/gpts exact",
     rule=_RULE,
     nontrivial_floor=0.2,
